@@ -18,6 +18,8 @@ def _gf255_k(names, quick_fields=("gf25519",), all_fields=("gf25519", "gf255e", 
 
 # Z3's newer linear-arithmetic core; the default (solver=2) needs minutes on the 512-bit carry-chain equalities
 ARITH6 = ("--smt-option", "smt.arith.solver=6")
+# Z3 run time on these units is heavy-tailed in the random seed (20 s .. > 5 min): run several seeds, first proof wins
+PORTFOLIO = (0, 1, 2, 3)
 
 FIELDS = ["gf255", "modint", "gf448", "gfsecp256k1", "gfgen", "gfb127", "gfb254"]
 CURVES = ["ed25519", "ed448", "p256", "secp256k1", "jq255e", "jq255s", "gls254", "ristretto255", "decaf448"]
@@ -35,11 +37,12 @@ PROPS = {
     "C01": dict(
         title="Field arithmetic is exact for every element representation",
         verus=[("w64_prim", None, "quick"), ("gf255_m64_lin", None, "quick"), ("gf255_m64_shift", None, "quick"),
-               ("gf255_m64_mul", 120, "quick", ARITH6, 300), ("gf255_m64_ops", None, "quick"), ("modint_lin", 60, "quick")],
+               ("gf255_m64_mul", 120, "quick", ARITH6, 300, PORTFOLIO), ("gf255_m64_ops", None, "quick"), ("modint_lin", 60, "quick"),
+               ("modint_m0i", 60, "quick"), ("gfsecp256k1_mul", 120, "quick", ARITH6, 300, PORTFOLIO)],
         kani=_gf255_k(["k_add", "k_sub", "k_neg", "k_half"]),
         cases=_f(["add", "sub", "neg", "half", "mul", "mul2", "mul4", "mul8", "mul16", "mul32", "mulk", "mul_small", "smallmul", "mul_b127",
                   "square", "xsquare", "bits"]),
-        level_text="GF255<MQ> (64-bit limbs; instantiated as GF25519, GF255e, GF255s): add, sub, neg, half, mul2..mul32, the full 4x4-limb multiplication and the dedicated squaring with their two-step pseudo-Mersenne reduction, repeated squaring (loop invariant, any n) and every +,-,* operator impl are proved by Verus against fe(result) == op(fe(args)) mod 2^255-MQ for every limb pattern and every admissible MQ; add/sub/neg/half additionally by Kani on the full 2^512 input domain. ModInt256<M0..M3> (all scalar fields and the P-256 field; any odd modulus with a non-zero top limb): set_add (both code paths), set_sub, set_neg, set_mul2/3/4/8/16/32 proved by Verus on the internal (Montgomery) representation with the invariant value < m. Montgomery multiplication/reduction, the other field types and backends: executable-postcondition stand-in only.",
+        level_text="GF255<MQ> (64-bit limbs; instantiated as GF25519, GF255e, GF255s): add, sub, neg, half, mul2..mul32, the full 4x4-limb multiplication and the dedicated squaring with their two-step pseudo-Mersenne reduction, repeated squaring (loop invariant, any n) and every +,-,* operator impl are proved by Verus against fe(result) == op(fe(args)) mod 2^255-MQ for every limb pattern and every admissible MQ; add/sub/neg/half additionally by Kani on the full 2^512 input domain. ModInt256<M0..M3> (all scalar fields and the P-256 field; any odd modulus with a non-zero top limb): set_add (both code paths), set_sub, set_neg, set_mul2/3/4/8/16/32 proved by Verus on the internal (Montgomery) representation with the invariant value < m. make_m0i (the -1/m0 mod 2^64 Newton iteration behind every Montgomery reduction) proved for every odd m0. GFsecp256k1::set_mul (product and the two-fold 2^32+977 reduction) proved. Montgomery multiplication/reduction, the other field types and backends: executable-postcondition stand-in only.",
         level_note="Trusted: Verus+Z3, Kani/CBMC, the x86 add-with-carry intrinsics (assumed to behave as the portable arms that are proved), extraction transformations listed in evidence. Not reached by any contract: ModInt256, GF448, GFsecp256k1, gfgen, binary fields, 32-bit/51-bit/clmul backends.",
         not_reached=["ModInt256 set_mul / set_square / set_montyred / set_half (stand-in only)", "GF448", "GFsecp256k1", "define_gfgen! (ed448 scalar)", "GFb127/GFb254",
                      "GF255 set_mul_small, set_lin, set_lindiv31abs (stand-in only)", "gf255_m51, w32 backend, gfb254_x86clmul/arm64pmull"],
@@ -47,7 +50,7 @@ PROPS = {
     "C03": dict(
         title="Point addition, doubling and negation implement the complete group law",
         verus=[("ed25519_law", None, "quick"), ("gf255_m64_ops", None, "quick"), ("gf255_m64_lin", None, "quick"),
-               ("gf255_m64_shift", None, "quick"), ("gf255_m64_mul", 120, "quick", ARITH6, 300)],
+               ("gf255_m64_shift", None, "quick"), ("gf255_m64_mul", 120, "quick", ARITH6, 300, PORTFOLIO)],
         kani=[],
         level_text="edwards25519: set_add, set_sub, set_double, set_xdouble (loop invariant, any n), set_neg, set_condneg and the &Point negation are proved by Verus to compute, as field values, exactly the RFC 8032 section 5.1.4 addition / doubling formulas (constant 2d checked by evaluation), on top of the GF255 operator contracts that are themselves discharged in the same run. That those formulas are the complete group law for every pair of curve points (Hisil-Wong-Carter-Dawson, d non-square) is the mathematical lemma this check assumes. Every other curve and set_mul_small: stand-in only.",
         level_note="Assumed (not machine-checked): completeness of the unified extended twisted-Edwards formulas. Not reached: ed448, p256, secp256k1, jq255e/s, gls254, ristretto255, decaf448 formulas.",
@@ -77,7 +80,7 @@ PROPS = {
     "C06": dict(
         title="Group-element encodings are canonical, injective and strictly decoded",
         verus=[], kani=[],
-        cases=_c(["decode_strict", "encode_equals", "subgroup_flags"]),
+        cases=_c(["decode_strict", "encode_equals", "subgroup_flags", "neutral_consistency"]),
         level="exploration",
     ),
     "C07": dict(
@@ -89,7 +92,7 @@ PROPS = {
     "C08": dict(
         title="ECDSA (P-256, secp256k1): standard verification, documented nonce derivation",
         verus=[], kani=[],
-        cases=["ecdsa_sign", "ecdsa_verify"],
+        cases=["ecdsa_sign", "ecdsa_verify", "ecdsa_verify_highx"],
         level="exploration",
     ),
     "C09": dict(
@@ -120,6 +123,18 @@ PROPS = {
         title="Field division, inversion, square root and Legendre symbol are correct",
         verus=[], kani=[],
         cases=_f(["div", "batch_invert", "legendre", "sqrt", "sqrt_ext", "trace", "halftrace", "qsolve", "lin"]),
+        level="exploration",
+    ),
+    "C13": dict(
+        title="Truncated-signature verification is sound and complete",
+        verus=[], kani=[],
+        cases=["ed25519_trunc", "p256_trunc", "p256_prepare_truncate", "p256_prepare_truncate_short"],
+        level="exploration",
+    ),
+    "C15": dict(
+        title="FROST: any qualifying signer set signs validly; bad shares are rejected",
+        verus=[], kani=[],
+        cases=["frost_*_protocol", "frost_*_corrupt", "frost_*_wire", "frost_*_decode_total"],
         level="exploration",
     ),
     "C14": dict(
@@ -156,7 +171,7 @@ PROPS = {
         verus=[("recode_naf", None, "quick")],
         kani=[("lms::sha256_m32::k_verify_total", "quick", "full-domain")] + _gf255_k(["k_decode_ct_badlen"]),
         cases=["*_decode_strict", "*_decode_ct", "*_decode_opt", "*_decode_reduce", "*_verify", "ecdsa_verify", "*_ecdh", "lms_sig_corrupt", "modint_split", "gfgen_split",
-               "hash_script", "x25519_ladder", "x448_ladder"],
+               "hash_script", "x25519_ladder", "x448_ladder", "frost_*_decode_total", "p256_prepare_truncate_short", "ed25519_trunc", "p256_trunc"],
         level_text="Absence of panics / out-of-bounds is part of every Verus obligation set and every Kani harness listed (index, slice, overflow and unwrap checks are built-in obligations): GF255 strict decoding for every length, LMS verify for every string, wNAF recoding. All other entry points: the stand-in sweep catches panics (catch_unwind) on boundary-biased inputs of all lengths.",
         level_note="Most decode/verify entry points are not under contract; status-word exactness is proved only for GF255 (C20).",
     ),
@@ -174,7 +189,5 @@ PROPS = {
 
 NOT_APPLICABLE = {
     "C02": "Constant-time behaviour of the optimized machine code (branch and address traces) is not a property of values computed by the source program; no Verus/Kani contract can state it and neither tool sees the emitted code.",
-    "C13": "Not reached: truncated-signature verification (baby-step/giant-step search over x-only sequences, 16385-entry table) has no contract in this framework; soundness would follow from group-law and verify contracts that are themselves not discharged, and completeness is a covering argument no contract within reach states.",
-    "C15": "Not reached: FROST is generated by define_frost_core! over five ciphersuites; its end-to-end statement (any t of n signers produce a valid aggregate) is protocol-level algebra over group and hash abstractions that no function contract in this framework reaches.",
     "C18": "Not decided: a relational claim over build configurations. It would follow as a corollary if every backend discharged the same contract text, but only the default 64-bit backend of GF255 is under contract; the other backends (w32, gf255_m51, zz32, clmul, AVX2/SSE2) are not reached, so no claim is made.",
 }
